@@ -31,6 +31,9 @@ CONSTANTS N,                \* shares (= nodes) per validator, indices 1..N
           DropVerify,       \* control: kind whose VC handler skips verifyPartialSig ("none" = as coded)
           SkipPropMatch,    \* control: SubmitProposal without propDataMatchesDuty
           SkipGater,        \* control: parsigex.handle without the duty gater
+          SwapEpochFor,     \* control: kind whose Epoch() is taken from its OTHER time field (attestation: the slot,
+                            \* aggregate: the target epoch) instead of the type's epoch source ("none" = as coded)
+          SignedGater,      \* control: the duty gater computes epochs in int64 (a slot >= 2^63 turns negative)
           UseSenderIdx,     \* control: the eth2 verifier looks the share up by the sender instead of data.ShareIdx
           InnerProofPolicy, \* "reject" as coded | "either": the statement is silent about the embedded selection proof
           VCBatchPolicy     \* "none" as coded (one bad entry fails the whole VC request) | "either" for the valid siblings
@@ -47,6 +50,14 @@ Dom == [attestation |-> "DOMAIN_BEACON_ATTESTER", proposal |-> "DOMAIN_BEACON_PR
         bcselection |-> "DOMAIN_SELECTION_PROOF", aggregate |-> "DOMAIN_AGGREGATE_AND_PROOF",
         aggregate_legacy |-> "DOMAIN_AGGREGATE_AND_PROOF", syncmsg |-> "DOMAIN_SYNC_COMMITTEE",
         scselection |-> "DOMAIN_SYNC_COMMITTEE_SELECTION_PROOF", contribution |-> "DOMAIN_CONTRIBUTION_AND_PROOF"]
+\* The epoch whose fork version goes into the signing domain, per type (consensus spec; core/eth2signeddata.go
+\* Epoch()): "target" the attestation's target epoch, "slot" the epoch of the object's slot, "epoch" the epoch the
+\* object itself carries (it has no slot), "genesis" the builder domain is pinned to the genesis fork version.
+EpochSource == [attestation |-> "target", proposal |-> "slot", blinded |-> "slot", randao |-> "epoch", exit |-> "epoch",
+                registration |-> "genesis", bcselection |-> "slot", aggregate |-> "slot", aggregate_legacy |-> "slot",
+                syncmsg |-> "slot", scselection |-> "slot", contribution |-> "slot"]
+\* types that carry a slot AND an attestation target epoch: the two can lie on opposite sides of a fork activation
+TwoTimes(k) == k \in {"attestation", "aggregate", "aggregate_legacy"}
 \* core.DutyType numbers (core/types.go); the duty a handler files the entry under
 DutyOf == [attestation |-> 2, proposal |-> 1, blinded |-> 1, randao |-> 7, exit |-> 4, registration |-> 6,
            bcselection |-> 8, aggregate |-> 9, aggregate_legacy |-> 9, syncmsg |-> 10, scselection |-> 11,
@@ -100,7 +111,12 @@ AltsOf(p, k, own, v) ==
   \cup (IF p = "vc" /\ k \in {"proposal", "blinded"} THEN {A("payload", 0, "body"), A("payload", 0, "proposer")} ELSE {})
   \cup (IF p = "vc" /\ k \in {"aggregate", "contribution"} THEN {A("innerProof", 0, "")} ELSE {})
   \cup (IF p = "peer" \/ ListEndpoint(k) THEN {A("mixedFirst", 0, ""), A("mixedSecond", 0, "")} ELSE {})
+  \* slot just before a fork activation and target epoch at it ("before"), or slot at it and target epoch before
+  \* ("after"); signed with the fork version of the type's epoch source (OK) or of the other time field (Bad)
+  \cup (IF TwoTimes(k) THEN {A(a, 0, side) : a \in {"straddleOK", "straddleBad"}, side \in {"before", "after"}} ELSE {})
   \cup (IF p = "peer" THEN {A("idx0", 0, ""), A("idxN1", 0, ""), A("future", 0, ""), A("futureEdge", 0, "")}
+                           \* the wire-supplied duty slot is 2^63, 2^63 + the current slot, 2^64 - 1
+                           \cup {A("hugeSlot", 0, x) : x \in {"2p63", "2p63now", "max"}}
                            \cup {A("idxOther", j, "") : j \in (1..N) \ {own}}
                            \cup {A("dutyType", d, "") : d \in ClaimedDutyTypes \ {DutyOf[k]}}
                       ELSE {})
@@ -121,12 +137,21 @@ Paths == {"vc", "peer"}
 Supported(k, ver) == ~(k = "proposal" /\ ver \in {"phase0", "altair"})
 Own(c) == IF c.path = "vc" THEN c.node ELSE c.sender
 Base(v, own, k) == [val |-> v, idx |-> own, sk |-> "bls", by |-> <<v, own>>, over |-> "orig", cur |-> "orig",
-                    sdom |-> Dom[k], ddom |-> Dom[k], sfork |-> "cur", inner |-> TRUE]
+                    sdom |-> Dom[k], ddom |-> Dom[k], inner |-> TRUE,
+                    \* fork versions: "a" is active at the object's slot in the plain cases, "b" is the next one
+                    esrc |-> EpochSource[k], slotFork |-> "a", tgtFork |-> "a", sfork |-> "a"]
+\* the fork version the object's own signing domain is built from
+OwnFork(e) == IF e.esrc = "target" THEN e.tgtFork ELSE e.slotFork
+OtherFork(f) == IF f = "a" THEN "b" ELSE "a"
+Straddle(e, side) == IF side = "before" THEN [e EXCEPT !.slotFork = "a", !.tgtFork = "b"]
+                     ELSE [e EXCEPT !.slotFork = "b", !.tgtFork = "a"]
 Alter(e, c) ==
   CASE c.alt = "otherShare" -> [e EXCEPT !.by = <<e.val, c.ai>>]
     [] c.alt = "otherVal" -> [e EXCEPT !.by = <<c.ai, e.idx>>]
     [] c.alt = "wrongDomain" -> [e EXCEPT !.sdom = c.as]
-    [] c.alt = "wrongFork" -> [e EXCEPT !.sfork = "other"]
+    [] c.alt = "wrongFork" -> [e EXCEPT !.sfork = "b"]
+    [] c.alt = "straddleOK" -> LET x == Straddle(e, c.as) IN [x EXCEPT !.sfork = OwnFork(x)]
+    [] c.alt = "straddleBad" -> LET x == Straddle(e, c.as) IN [x EXCEPT !.sfork = OtherFork(OwnFork(x))]
     [] c.alt = "field" -> [e EXCEPT !.cur = c.as]
     [] c.alt = "zeroSig" -> [e EXCEPT !.sk = "zero"]
     [] c.alt = "badSig" -> [e EXCEPT !.sk = "malformed"]
@@ -147,7 +172,8 @@ Msg(c) == [path |-> c.path, kind |-> c.kind, node |-> IF c.path = "vc" THEN c.no
                          [] c.alt = "mixedSecond" -> <<Base(c.val, Own(c), c.kind), Bad2(c)>>
                          [] OTHER -> <<Alter(Base(c.val, Own(c), c.kind), c)>>,
            dt |-> IF c.alt = "dutyType" THEN c.ai ELSE DutyOf[c.kind],
-           window |-> CASE c.alt = "future" -> "beyond" [] c.alt = "futureEdge" -> "edge" [] OTHER -> "in",
+           window |-> CASE c.alt = "future" -> "beyond" [] c.alt = "futureEdge" -> "edge"
+                        [] c.alt = "hugeSlot" -> "huge" [] OTHER -> "in",
            payload |-> c.alt # "payload",
            supported |-> Supported(c.kind, c.ver)]
 NoMsg == [path |-> "-", kind |-> "-", node |-> 0, sender |-> 0, alt |-> "-", entries |-> <<>>, dt |-> 0,
@@ -155,32 +181,35 @@ NoMsg == [path |-> "-", kind |-> "-", node |-> 0, sender |-> 0, alt |-> "-", ent
 
 (* ------------------------------------------ the property, as stated ---------------------------------------- *)
 Valid(e) == /\ e.sk = "bls" /\ e.val \in 1..V /\ e.idx \in 1..N
-            /\ e.by = <<e.val, e.idx>> /\ e.over = e.cur /\ e.sdom = e.ddom /\ e.sfork = "cur"
+            /\ e.by = <<e.val, e.idx>> /\ e.over = e.cur /\ e.sdom = e.ddom /\ e.sfork = OwnFork(e)
 DutyTypeValid(dt) == dt \in 1..13
 MayEnter(m, k) ==
   /\ Valid(m.entries[k])
   /\ m.path = "vc" => m.entries[k].idx = m.node
-  /\ m.path = "peer" => /\ DutyTypeValid(m.dt) /\ m.window # "beyond"
+  /\ m.path = "peer" => /\ DutyTypeValid(m.dt) /\ m.window \notin {"beyond", "huge"}
                         /\ \A j \in DOMAIN m.entries : Valid(m.entries[j])     \* nothing of a message with a bad entry
   /\ (m.path = "vc" /\ m.kind \in {"proposal", "blinded"}) => m.payload
 \* sanity of the whole arrangement: an unaltered submission does enter (except where the endpoint ignores its input)
-MustEnter(m) == m.alt \in {"none", "futureEdge"} /\ ~(m.path = "vc" /\ m.kind = "registration") /\ m.supported
+MustEnter(m) == m.alt \in {"none", "futureEdge", "straddleOK"} /\ ~(m.path = "vc" /\ m.kind = "registration") /\ m.supported
 
 (* ------------------------------------------ the handlers, as coded ----------------------------------------- *)
 Lock == [v \in 1..V |-> [i \in 1..N |-> <<v, i>>]]
 \* core.VerifyEth2SignedData -> signing.Verify: data root from the object's DomainName/Epoch/MessageRoot, the zero
 \* signature is refused, then tbls.Verify
-VerifyEth2(key, e) == /\ e.ddom # "none"                      \* "invalid eth2 signed data"
-                      /\ e.sk # "zero"                        \* "no signature found"
-                      /\ e.sk = "bls" /\ e.by = key /\ e.over = e.cur /\ e.sdom = e.ddom /\ e.sfork = "cur"
+CodeFork(m, e) == IF SwapEpochFor = m.kind THEN (IF e.esrc = "target" THEN e.slotFork ELSE e.tgtFork)
+                  ELSE OwnFork(e)                                               \* data.Epoch(ctx, eth2Cl)
+VerifyEth2(key, e, m) == /\ e.ddom # "none"                   \* "invalid eth2 signed data"
+                         /\ e.sk # "zero"                     \* "no signature found"
+                         /\ e.sk = "bls" /\ e.by = key /\ e.over = e.cur /\ e.sdom = e.ddom /\ e.sfork = CodeFork(m, e)
 \* parsigex.handle: gater, ParSignedDataSetFromProto, verifyFunc for every entry, then the subscribers
-PeerGate(m) == SkipGater \/ (DutyTypeValid(m.dt) /\ m.window # "beyond")
+\* core/gater.go: duty.Slot / slotsPerEpoch <= currentEpoch + allowedFutureEpochs in uint64
+PeerGate(m) == SkipGater \/ (DutyTypeValid(m.dt) /\ (m.window \in {"in", "edge"} \/ (SignedGater /\ m.window = "huge")))
 PeerDecodes(m) == /\ m.dt \in (1..12) \ {5}                   \* DutyBuilderProposer deprecated, InfoSync/others unsupported
                   /\ \A k \in DOMAIN m.entries : m.entries[k].sk # "malformed"
 PeerVerify(m, e) == /\ e.val \in DOMAIN Lock                  \* "unknown pubkey, not part of cluster lock"
                     /\ LET i == IF UseSenderIdx THEN m.sender ELSE e.idx
                        IN  i \in DOMAIN Lock[e.val]           \* "invalid shareIdx"
-                           /\ VerifyEth2(Lock[e.val][i], e)
+                           /\ VerifyEth2(Lock[e.val][i], e, m)
 PeerAdmits(m) == PeerGate(m) /\ PeerDecodes(m) /\ \A k \in DOMAIN m.entries : PeerVerify(m, m.entries[k])
 \* validatorapi: resolve the validator, (aggregates/contributions) inner selection proof, (proposals)
 \* propDataMatchesDuty, verifyPartialSig with the node's own share of that validator
@@ -190,7 +219,7 @@ VCEntryOK(m, e) ==
   /\ m.kind \in {"proposal", "blinded"} => (SkipPropMatch \/ m.payload)
   /\ \/ DropVerify = m.kind
      \/ /\ e.val \in DOMAIN Lock                              \* getVerifyShareFunc: "unknown public key"
-        /\ VerifyEth2(Lock[e.val][m.node], e)
+        /\ VerifyEth2(Lock[e.val][m.node], e, m)
 Checks(m) == IF m.path = "peer" THEN PeerAdmits(m)
              ELSE m.kind # "registration" /\ \A k \in DOMAIN m.entries : VCEntryOK(m, m.entries[k])
 AsCoded(m) == m.supported /\ Checks(m)
